@@ -32,8 +32,8 @@ func init() {
 		{4, (*G).tClosureCounter}, {4, (*G).tLoopClosures}, {4, (*G).tMultiAssign}, {4, (*G).tTable},
 		{5, (*G).tVarargFn}, {4, (*G).tGoto}, {6, (*G).tTypeError}, {5, (*G).tErrorValue}, {6, (*G).tMeta},
 		{3, (*G).tMethod}, {2, (*G).tTbc}, {3, (*G).tTruncExpand}, {2, (*G).tRecursion}, {2, (*G).tStringCoerce},
-		{2, (*G).tForEdge}, {2, (*G).tXpcall}, {2, (*G).tNestedProtect}, {5, (*G).tIndexChain}, {2, (*G).tSelect},
-		{0, (*G).tErrorSite}, {0, (*G).tPoolStress}, {5, (*G).tCoroutine}, {0, (*G).tLongHistory},
+		{4, (*G).tForEdge}, {2, (*G).tXpcall}, {2, (*G).tNestedProtect}, {5, (*G).tIndexChain}, {2, (*G).tSelect},
+		{0, (*G).tErrorSite}, {0, (*G).tPoolStress}, {5, (*G).tCoroutine}, {0, (*G).tLongHistory}, {5, (*G).tSurplus}, {6, (*G).tEvalOrder}, {3, (*G).tLongString},
 	}
 }
 
@@ -215,8 +215,11 @@ func (g *G) tForNum() []*S {
 		default:
 			kind = KFloat
 			e1, e2, e3 = Flt(g.pickF([]float64{0.0, 1.0, 0.5})), Flt(g.pickF([]float64{2.0, 2.5, 3.0})), Flt(g.pickF([]float64{0.5, 0.25, 1.0}))
-			if g.chance(30) {
-				e1 = Int(1) // integer start with a float step: float loop
+			if g.chance(55) {
+				e1 = Int(int64(g.pick(2))) // integer start with a float step: a float loop from the first iteration on
+				if g.chance(40) {
+					e3 = Flt(1.0)
+				}
 			}
 		}
 		if kind == KInt && g.chance(15) {
@@ -226,7 +229,10 @@ func (g *G) tForNum() []*S {
 		defer g.pop()
 		g.declare(&VarInfo{Name: i, Kind: kind})
 		body := g.loopBody(1 + g.pick(3))
-		if g.chance(40) {
+		if kind == KFloat {
+			// the subtype of the control variable is observable from the first iteration on
+			body = append([]*S{Emit(Var(i), Call(Dot(Var("math"), "type"), Var(i)))}, body...)
+		} else if g.chance(40) {
 			body = append([]*S{Emit(Var(i))}, body...)
 		}
 		return []*S{ForNum(i, e1, e2, e3, body...)}
